@@ -255,6 +255,7 @@ class LabelSim:
         self.names: Dict[str, str] = {}
         self.name_clash = False
         self.shared_default = False
+        self.late_tasks = 0
 
     def close(self) -> None:
         self.loop.close()
@@ -303,6 +304,22 @@ class LabelSim:
                 times = [r["time"] for r in lst if "time" in r]
                 if len(times) != len(set(times)) or len(lst) >= 2:
                     self.shared_time_or_task = True
+            return
+        if o == "add_task":
+            # a task registered on the own broker at run time, after the source may already have been used
+            key_ = f"late{len(self.raw)}"
+            self.names[key_] = key_
+            raw = [self.raw_entry(e) for e in op["entries"]]
+
+            def lf(*a: Any, **k: Any) -> None:
+                return None
+
+            lf.__module__ = __name__
+            lf.__name__ = key_
+            self.tasks.append(self.broker.register_task(lf, task_name=key_, schedule=raw))
+            self.raw[key_] = raw
+            self.model[key_] = [dict(r) for r in raw]
+            self.late_tasks += 1
             return
         if o == "list":
             got = self.loop.run_until_complete(self.source.get_schedules())
@@ -382,7 +399,7 @@ def run_label_history(case: Dict[str, Any]) -> Outcome:
 def finish(sim: LabelSim, out: Outcome) -> None:
     out.nontrivial = bool(sim.shared_time_or_task and sim.fired)
     out.classes = [c for c, f in (("fired", sim.fired), ("shared_time_or_task", sim.shared_time_or_task),
-                                  ("shared_broker_task", any(t.broker is sim.shared for t in sim.tasks)), ("shared_task_with_own_name", sim.name_clash), ("shared_broker_defaults_to_own", sim.shared_default),
+                                  ("shared_broker_task", any(t.broker is sim.shared for t in sim.tasks)), ("shared_task_with_own_name", sim.name_clash), ("shared_broker_defaults_to_own", sim.shared_default), ("task_registered_after_first_use", sim.late_tasks > 0),
                                   ("stale_fire", sim.fired >= 2 and len(sim.listings) >= 1)) if f]
     out.trace = {"ops": len(sim.ops), "fired": sim.fired, "listings": len(sim.listings)}
 
@@ -406,6 +423,11 @@ def make_machine(ctx: Any, ctx_state: Dict[str, Any]) -> Any:
         @rule()
         def list_(self) -> None:
             self._step({"op": "list"})
+
+        @rule(entries=st.lists(entry_strategy(), min_size=1, max_size=3))
+        def add_task(self, entries: Any) -> None:
+            if self.sim.late_tasks < 2:
+                self._step({"op": "add_task", "entries": entries})
 
         @rule(k=st.integers(0, 40))
         def fire(self, k: int) -> None:
